@@ -3,7 +3,7 @@
   its de-duplication, `_yr_re_fiber_sync`, the per-position pass) reports the length of every accepting path of stopped
   fibers — provided the run ends without an error (`exec e = .done ..`: no fiber explosion, no fuel error).
     `AccN e n f bm` : from the stopped fiber `f` after `bm` matched bytes there is a path of `n` consuming steps to
-                      RE_OPCODE_MATCH, through fibers every later `_yr_re_fiber_sync` call is bound to produce
+                      RE_OPCODE_MATCH, through fibers every later top-level `_yr_re_fiber_sync` call (empty executed-split set) is bound to produce
     `exec_complete` : such a path from the entry makes the callback report its length
 -/
 import YaraModel.Lemmas.ReVm
@@ -13,11 +13,11 @@ namespace YaraModel.ReVm
 def AccN (e : Env) : Nat → Fiber → Nat → Prop
   | 0, f, _ => u8 e.code f.ip = OP_MATCH
   | n + 1, f, bm => isConsuming (u8 e.code f.ip) = true ∧ consumeOk e bm f = true ∧
-      ∀ F ex l a ex', sync e.code F ex (advance e.code f) = some (l, a, ex') → ∃ g, g ∈ l ∧ AccN e n g (bm + e.cs)
+      ∀ F l a ex', sync e.code F [] (advance e.code f) = some (l, a, ex') → ∃ g, g ∈ l ∧ AccN e n g (bm + e.cs)
 
-/-- the same from a fiber that still has to be synced -/
+/-- the same from a fiber that still has to be synced (by a top-level `_yr_re_fiber_sync` call: no split executed yet) -/
 def AccU (e : Env) (n : Nat) (f : Fiber) (bm : Nat) : Prop :=
-  ∀ F ex l a ex', sync e.code F ex f = some (l, a, ex') → ∃ g, g ∈ l ∧ AccN e n g bm
+  ∀ F l a ex', sync e.code F [] f = some (l, a, ex') → ∃ g, g ∈ l ∧ AccN e n g bm
 
 theorem dedup_mem {f : Fiber} : ∀ (fs acc : List Fiber), (f ∈ fs ∨ f ∈ acc) → f ∈ dedup fs acc
   | [], acc, h => by
@@ -146,7 +146,7 @@ theorem loop_complete (e : Env) (hx : e.fl.exhaustive = true) (hs : e.fl.scan = 
             simp only [AccN] at hacc
             obtain ⟨a1, a2, a3⟩ := hacc
             obtain ⟨l, a, ex', hsy, hkept⟩ := q2 a1 a2
-            obtain ⟨g, hg, hgacc⟩ := a3 _ _ _ _ _ hsy
+            obtain ⟨g, hg, hgacc⟩ := a3 _ _ _ _ hsy
             have := i2 k g (hkept g hg) hgacc
             have e1 : bm + e.cs + k * e.cs = bm + (k + 1) * e.cs := by rw [Nat.add_mul]; omega
             rw [e1] at this; exact this
@@ -159,7 +159,7 @@ theorem exec_complete (e : Env) (hx : e.fl.exhaustive = true) (hs : e.fl.scan = 
   split at h
   · cases h
   · rename_i l a ex hsy
-    obtain ⟨g, hg, hga⟩ := hacc _ _ _ _ _ hsy
+    obtain ⟨g, hg, hga⟩ := hacc _ _ _ _ hsy
     have := (loop_complete e hx hs _ l 0 (-1) [] m c h).2 n g hg hga
     simpa using this
 
